@@ -21,8 +21,6 @@ def main():
     os.environ.setdefault("VERIF_TIER", "quick")
     if os.environ["VERIF_TIER"] not in ("quick", "thorough"):
         os.environ["VERIF_TIER"] = "quick"
-    from . import deps
-    deps.ensure()
     mod = importlib.import_module(f"j2mverif.checks.{ns.prop.lower()}")
     if ns.replay:
         with open(ns.replay) as f:
